@@ -82,9 +82,9 @@ Print Assumptions replmain_total.
 Theorem replmain_sandboxed : forall v pl more it p,
   find_plan v replmain_plans = Some pl -> flag_value "Sandboxed" replmain_flags v = true ->
   Forall known_op more ->
-  In it (interps (run_family (plan_ops pl ++ more))) -> iworld it = 0 ->
+  In it (interps (run_family ((plan_ops pl ++ more)%list))) -> iworld it = 0 ->
   iflag it = true /\
-  effects_of (ctx_of_interp (run_family (plan_ops pl ++ more)) it) (run_abs (ctx_of_interp (run_family (plan_ops pl ++ more)) it) p) = [].
+  effects_of (ctx_of_interp (run_family ((plan_ops pl ++ more)%list)) it) (run_abs (ctx_of_interp (run_family ((plan_ops pl ++ more)%list)) it) p) = [].
 Proof. exact FamilyProofs.replmain_sandboxed. Qed.
 Print Assumptions replmain_sandboxed.
 
@@ -94,7 +94,7 @@ Proof. exact FamilyProofs.cmdline_construction_sandboxed. Qed.
 Print Assumptions cmdline_construction_sandboxed.
 
 (* the fixed configurations are family members: the two presentations of the generated tables agree *)
-Theorem std_is_composed : bindings_std = ctor_sandbox ++ std_regs_sb.
+Theorem std_is_composed : bindings_std = (ctor_sandbox ++ std_regs_sb)%list.
 Proof. exact FamilyProofs.std_is_composed. Qed.
 Print Assumptions std_is_composed.
 
